@@ -3,3 +3,5 @@ import Dnp3.Gen.All
 import Dnp3.Props.All
 import Dnp3.Driver.Link
 import Dnp3.Driver.Transport
+import Dnp3.Driver.Outstation
+import Dnp3.Model.OutstationTrace
